@@ -4,6 +4,11 @@ COMMON_NOTE = ("Trusted base: the simulator (sim/), the hook placement (every AB
                "Sampling, not enumeration.")
 TECH = "deterministic simulation with fault injection: seeded search over schedules/programs/configurations; "
 TEXT = {
+    "C16": {
+        "level_text": "Seeded exploration of key create/set/get over up to 40 keys and ABT_KEY_TABLE_SIZE in {1,...,64} (chains longer than the in-descriptor storage) on ULTs, tasklets and the primary ULT through ABT_key_set/get and ABT_self_set/get_specific, while another ULT or external thread sets keys of the running owners with ABT_thread_set_specific (racing the lazy table creation and chain appends); a per-unit reference map decides every get (single writer per (unit,key); remotely written keys must never go back in time or show another unit's value), and a destructor log decides that at free / ABT_finalize each destructor ran exactly once for every non-NULL value still stored and never for overwritten values; the ledger catches leaked table blocks.",
+        "level_note": COMMON_NOTE,
+        "technique": TECH + "per-unit reference map + destructor log (exactly-once) + allocation ledger, concurrent remote setters under the seeded scheduler",
+    },
     "C02": {
         "level_text": "Seeded exploration with an exact context-ownership monitor at the hook placed immediately before every user-level context switch (a context may be entered only if no simulated stream still owns it; ownership of the context being left is released exactly where its stack pointer is stored): suspend/resume races with resumers on other streams and directed-switch chains over every primitive (yield, yield_to, thread_yield_to, suspend_to, resume_yield_to, resume_suspend_to, exit_to, resume_exit_to, create_to, revive_to) with targets started or not, in private and shared pools, over memory-pool, malloc'ed odd-size and user-supplied 8-byte-offset stacks; every switch is wrapped in an assembly shim that keeps distinct patterns in rbx, rbp, r12-r15 and non-default MXCSR / x87 control words, stack-resident pattern arrays are compared across the switch, entry alignment, containment in the declared stack and pairwise disjointness of live stacks are asserted.",
         "level_note": COMMON_NOTE,
